@@ -108,3 +108,35 @@ Definition run_vrank_segs (pct rev : bool) (xs : list float) : list Z :=
       | Ok l => c_nat (length l)
       | Panic k => c_panic k
       end).
+
+(* =====================================================================================================
+   Audit YB (additive).  `run_trace` above IS the encoding of Model/Kernels.v `driver_call` (the whole call
+   of a driver: the checks of the code in their order, then the trace) with a callback that reads nothing -
+   so the theorems C10_driver_call_safe* of Props/C10.v speak about exactly the cells compared here.      *)
+Definition dkind_of (kind : Z) : dkind :=
+  (match kind with
+   | 0 => KApplyTo | 1 => KApply2To | 2 => KIdxTo | 3 => KIdx2To | 4 => KCustomTo | 5 => KCustomLazy
+   | 6 => KCustomWrite | 7 => KCustom2Lazy | 8 => KCustom2Write | _ => KIterBody
+   end)%Z.
+Definition enc_dcall (d : dcall) : list Z :=
+  match d with DPanic k => c_panic k | DTrace t => flat_map enc_acc t end.
+
+Lemma run_trace_is_driver_call (kind : Z) (w len len2 : nat) :
+  run_trace kind w len len2 = enc_dcall (driver_call (fun _ _ => []) (dkind_of kind) w len len2).
+Proof.
+  assert (F : forall k, In k [KApplyTo; KApply2To; KIdxTo; KIdx2To; KCustomTo; KCustomLazy; KCustomWrite; KCustom2Lazy;
+                              KCustom2Write; KIterBody] ->
+              forall z, dkind_of z = k -> run_trace z w len len2 = enc_dcall (driver_call (fun _ _ => []) k w len len2)).
+  2: { apply (F (dkind_of kind)); [|reflexivity]. destruct (dkind_of kind); cbn; tauto. }
+  intros k _ z Hz. unfold run_trace. unfold dkind_of in Hz.
+  destruct z as [|p|p]; [| |subst k; unfold driver_call, enc_dcall;
+                             repeat match goal with |- context [if ?c then _ else _] => destruct c end; reflexivity].
+  - subst k. unfold driver_call, enc_dcall.
+    repeat match goal with |- context [if ?c then _ else _] => destruct c end; reflexivity.
+  - do 4 (try (destruct p as [p|p|])); subst k; unfold driver_call, enc_dcall;
+      repeat match goal with |- context [if ?c then _ else _] => destruct c end; reflexivity.
+Qed.
+
+(* rolling_custom(.., Some(out)) of the default trait method with a caller buffer of ANY length `lo`
+   (Model/Kernels.v custom_write_call; Props/C10.v C10_custom_write_any_buffer) *)
+Definition run_custom_write (w len lo : nat) : list Z := enc_dcall (custom_write_call w len lo).
